@@ -288,17 +288,10 @@ def orthoComp (sqrt : K → K) (e : V3 K) : V3 K × V3 K :=
 def comb3 (a : K) (u : V3 K) (b : K) (v : V3 K) : V3 K :=
   ⟨a * u.x - b * v.x, a * u.y - b * v.y, a * u.z - b * v.z⟩
 
-/-- `Impl::eig1`: unit eigenvector for `ev1` orthogonal to the unit eigenvector `e0`, from the 2x2 system
-`M = Jᵀ (A - ev1 I) J`, `J = [u, v]`; the largest row of `M` is used, `u` if `M = 0`. -/
-def eig1 (sqrt : K → K) (A : M3 K) (e0 : V3 K) (ev1 : K) : V3 K :=
-  let uv := orthoComp sqrt e0
-  let u := uv.1
-  let v := uv.2
-  let Au := mv3 A u
-  let Av := mv3 A v
-  let m00 := dotv3 u Au - ev1
-  let m01 := dotv3 u Av
-  let m11 := dotv3 v Av - ev1
+/-- the branch structure of `Impl::eig1` on the reduced symmetric 2x2 matrix `M = [[m00, m01], [m01, m11]]`:
+`some (a, b)` means `evec1 = a*u - b*v`, `none` means `evec1 = u` (the case `M = 0`).  The largest-length row of `M`
+is used and normalised by dividing by its larger entry. -/
+def eig1Coeffs (sqrt : K → K) (m00 m01 m11 : K) : Option (K × K) :=
   let a00 := absK m00
   let a01 := absK m01
   let a11 := absK m11
@@ -308,26 +301,41 @@ def eig1 (sqrt : K → K) (A : M3 K) (e0 : V3 K) (ev1 : K) : V3 K :=
         let m01 := m01 / m00
         let m00 := (one : K) / sqrt ((one : K) + m01 * m01)
         let m01 := m01 * m00
-        comb3 m01 u m00 v
+        some (m01, m00)
       else
         let m00 := m00 / m01
         let m01 := (one : K) / sqrt ((one : K) + m00 * m00)
         let m00 := m00 * m01
-        comb3 m01 u m00 v
-    else u
+        some (m01, m00)
+    else none
   else
     if (zero : K) < maxK a11 a01 then
       if a01 ≤ a11 then
         let m01 := m01 / m11
         let m11 := (one : K) / sqrt ((one : K) + m01 * m01)
         let m01 := m01 * m11
-        comb3 m11 u m01 v
+        some (m11, m01)
       else
         let m11 := m11 / m01
         let m01 := (one : K) / sqrt ((one : K) + m11 * m11)
         let m11 := m11 * m01
-        comb3 m11 u m01 v
-    else u
+        some (m11, m01)
+    else none
+
+/-- `Impl::eig1`: unit eigenvector for `ev1` orthogonal to the unit eigenvector `e0`, from the 2x2 system
+`M = Jᵀ (A - ev1 I) J`, `J = [u, v]` -/
+def eig1 (sqrt : K → K) (A : M3 K) (e0 : V3 K) (ev1 : K) : V3 K :=
+  let uv := orthoComp sqrt e0
+  let u := uv.1
+  let v := uv.2
+  let Au := mv3 A u
+  let Av := mv3 A v
+  let m00 := dotv3 u Au - ev1
+  let m01 := dotv3 u Av
+  let m11 := dotv3 v Av - ev1
+  match eig1Coeffs sqrt m00 m01 m11 with
+  | none => u
+  | some (a, b) => comb3 a u b v
 
 /-- stable insertion sort of three (value, vector) pairs by value (`std::sort` with `x.first < y.first` on a
 3-element range is libstdc++'s insertion sort) -/
